@@ -11,12 +11,16 @@ WT=$(mktemp -d /var/tmp/mutwt-XXXX); VT=$(mktemp -d /var/tmp/mutvt-XXXX)
 cleanup(){ git -C /repo worktree remove --force "$WT" >/dev/null 2>&1; rm -rf "$WT" "$VT"; }
 trap cleanup EXIT
 rmdir "$WT"; git -C /repo worktree add -q --detach "$WT" HEAD || exit 2
-if ! git -C "$WT" apply --exclude='internal/integration/*/*' --exclude='examples/ex_*/*' "$PATCH" 2>"$VT/apply.err"; then
+if [ -n "${MUT_VERBATIM:-}" ]; then
+  # the patch is applied as it is, checked-in generated files included and nothing regenerated (C14 changes)
+  git -C "$WT" apply "$PATCH" 2>"$VT/apply.err" || { echo "PATCH-DOES-NOT-APPLY"; head -5 "$VT/apply.err"; exit 3; }
+elif ! git -C "$WT" apply --exclude='internal/integration/*/*' --exclude='examples/ex_*/*' "$PATCH" 2>"$VT/apply.err"; then
   if ! git -C "$WT" apply --3way --exclude='internal/integration/*/*' --exclude='examples/ex_*/*' "$PATCH" 2>>"$VT/apply.err"; then
     echo "PATCH-DOES-NOT-APPLY"; head -5 "$VT/apply.err"; exit 3
   fi
 fi
-if [ -n "${MUT_REGEN:-}" ] || grep -qE '^diff --git a/(internal/integration/[^/]+/|examples/ex_)' "$PATCH"; then
+if [ -n "${MUT_VERBATIM:-}" ]; then :
+elif [ -n "${MUT_REGEN:-}" ] || grep -qE '^diff --git a/(internal/integration/[^/]+/|examples/ex_)' "$PATCH"; then
   /verif/tools/regen_fixtures.sh "$WT" >/dev/null 2>&1 || echo "note: fixture regeneration failed with the mutant"
 fi
 (cd "$WT" && go build ./... ) 2>"$VT/build.err" || { echo "MUTANT-DOES-NOT-BUILD"; head -5 "$VT/build.err"; exit 4; }
